@@ -138,7 +138,7 @@ class ResultInterp(Interp):
         if name in ("numpy.all", "numpy.any") and args and isinstance(args[0], (list, tuple)) and all(isinstance(x, bool) for x in args[0]):
             return all(args[0]) if name.endswith("all") else any(args[0])
         r.ext_calls.append((name, node))
-        return Unknown(f"{name}(...)")
+        return super().external_call(name, args, kwargs, node)
 
     def compare_hook(self, op, l, r, node):
         if isinstance(op, (ast.Eq, ast.NotEq)) and isinstance(l, Obj) and isinstance(r, Obj) and l.cls.name == "Metric" and r.cls.name == "Metric":
